@@ -253,6 +253,15 @@ def check_case(ctx, case):
                                 f"message lists axes {axes}, bindings in force at the failure are {exp_axes} (failure at {w['stage']} {w['index']}) {where}")
             if structs != w["structs"]:
                 raise Violation("structures-listed", dict(case, variant=[ck, style]), f"message lists structures {structs}, in force: {w['structs']} {where}")
+            # the error can cross a process boundary (multiprocessing / concurrent.futures workers report it by pickling it)
+            try:
+                import pickle
+
+                back = pickle.loads(pickle.dumps(exc))
+            except BaseException as e:  # noqa: BLE001
+                raise Violation("error-pickle", dict(case, variant=[ck, style]), f"the TypeCheckError cannot be pickled: {type(e).__name__}: {e} {where}")
+            if type(back) is not type(exc) or str(back) != msg:
+                raise Violation("error-pickle", dict(case, variant=[ck, style]), f"the TypeCheckError changed when pickled: {type(back).__name__} {str(back)[:120]!r} {where}")
             if (exc.__cause__ is None) != bool(case["flag"]):
                 raise Violation("cause-vs-switch", dict(case, variant=[ck, style]),
                                 f"remove_typechecker_stack={case['flag']} but __cause__ is {'None' if exc.__cause__ is None else type(exc.__cause__).__name__} {where}")
